@@ -10,14 +10,16 @@ of C01's `run_std_noPanic` (`dateImpls_noPanic` in `Proofs/StdNoPanic.lean`).
 
 * **calendar**: day number ↔ civil date are inverse bijections between all integers and all valid
   proleptic Gregorian dates (`cal_days_civil_days`, `cal_civil_days_civil`), with 1 ≤ month ≤ 12,
-  1 ≤ day ≤ length of the month, 0 ≤ second of the day < 86400 (`cal_civil_ranges`, `cal_instant_fields`);
+  1 ≤ day ≤ length of the month, 0 ≤ second of the day < 86400 (`cal_civil_ranges`, `cal_instant_fields`),
+  1 ≤ day of the year ≤ 365 or 366, 1 ≤ ISO week ≤ 53 (`cal_yearday_isoweek_range`);
 * **no panic** in `date` on every receiver and argument list, in the printing of a time and in the
   conversions from and to a time; `Strftime` never reports an error;
 * **`date` is `Strftime`** of the broken-down UTC time; **without an argument the format is
   `%a, %b %d, %y`**;
 * **`%Y-%m-%d`** of a year 0..9999 is `dddd-dd-dd` and those digits are year, month and day: `ParseDate`
   reads it as the midnight of that day; **`%Y-%m-%d %H:%M:%S`** is read back by `ParseDate` as the
-  instant itself, and is what `{{ t }}` prints before ` +0000`;
+  instant itself, and is what `{{ t }}` prints before ` +0000`; conversely a `dddd-dd-dd` string that `ParseDate`
+  accepts is printed back unchanged by `%Y-%m-%d` (`parse_then_strftime_ymd`);
 * **`%s`** is the unix time (the text `strconv.ParseInt` reads back as it; the plain decimal text
   except for 0..9, which print with a leading zero); **`%%`** prints `%`.
 -/
@@ -61,6 +63,23 @@ theorem cal_instant_fields (u : Int) :
   refine ⟨a, b, c, d, f, g, h, i, (Cal.secOfDay_lt u).1, ?_⟩
   rw [e]
   exact j
+
+/-- **the day of the year** (`YearDay`, `%j`) of every instant is between 1 and 365, or 366 in a leap year, and
+    **the ISO week number** (`ISOWeek`, `%V`) of every day is between 1 and 53. -/
+theorem cal_yearday_isoweek_range (u z : Int) :
+    1 ≤ (Cal.broken u).yday ∧ (Cal.broken u).yday ≤ (if Cal.isLeap (Cal.broken u).year then 366 else 365) ∧
+    1 ≤ (Cal.isoWeek z).2 ∧ (Cal.isoWeek z).2 ≤ 53 :=
+  ⟨(Cal.broken_yday u).1, (Cal.broken_yday u).2, (Cal.isoWeek_range z).1, (Cal.isoWeek_range z).2⟩
+
+/-- **`%j` prints the day of the year** with three digits' zero padding, a number between 1 and 366. -/
+theorem strftime_yday (u : Int) :
+    strftime (Cal.broken u) fmtYday = .ok (fmtNum .zero 3 (Cal.broken u).yday) ∧
+    1 ≤ (Cal.broken u).yday ∧ (Cal.broken u).yday ≤ 366 := by
+  refine ⟨?_, (Cal.broken_yday u).1, ?_⟩
+  · rw [strftime_eq_render, tokens_yday]
+    simp only [render, directive_j, Res.bind, List.append_nil]
+  · have := (Cal.broken_yday u).2
+    split at this <;> omega
 
 /-! Non-vacuity: 2000-02-29 12:00:00 is the instant 951825600, a Tuesday; the last second of the year −1 -/
 example : Cal.broken 951825600 = { unix := 951825600, days := 11016, year := 2000, month := 2, day := 29, hour := 12, min := 0, sec := 0, wday := 2, yday := 60 } := by
@@ -204,6 +223,17 @@ theorem strftime_dateTime_parse (u : Int) (hy0 : 0 ≤ (Cal.broken u).year) (hy 
   congr 1
   omega
 
+
+/-- **parse, then format.** A ten-byte string that `ParseDate` accepts (`dddd-dd-dd` with a valid date: layout
+    `2006-01-02`) is printed back unchanged by `%Y-%m-%d` of the instant it denotes: on such strings
+    `"s" | date: "%Y-%m-%d"` is the identity. -/
+theorem parse_then_strftime_ymd (s : Bytes) (u : Int) (hl : s.length = 10) (hp : Cal.parseDate s = .time u) :
+    strftime (Cal.broken u) fmtDate = .ok s :=
+  parseDate_then_strftime_date s u hl hp
+
+/-! Non-vacuity: `2024-02-29` is accepted and comes back; `2023-02-29` is rejected -/
+example : Cal.parseDate [50, 48, 50, 52, 45, 48, 50, 45, 50, 57] = .time 1709164800 ∧
+    Cal.parseDate [50, 48, 50, 51, 45, 48, 50, 45, 50, 57] = .reject := by decide +kernel
 
 /-- **`{{ t }}` is `%Y-%m-%d %H:%M:%S` followed by ` +0000`** (years 0..9999; `time.Format` and `fmt`'s `%04d`
     differ on negative years: `-0001` and `-001`). -/
